@@ -226,6 +226,27 @@ impl Check for MerkleIndexed {
                             _ => {}
                         }
                     }
+                    // a proof vector is only element-checked when it is iterated: the honest proof padded with elements that are not
+                    // 32-byte hashes (a 31-byte string, a number) is an EXTENDED proof and must not verify, in either form
+                    if genuine && i % 4 == 0 {
+                        use soroban_sdk::{IntoVal, Symbol, Val};
+                        for (form, honest, rt) in [("verify_sorted", &sproofs[*k], sroot), ("verify", &proofs[*k], root)] {
+                            for junk in [Bytes::from_array(e, &[9u8; 31]).to_val(), 7u32.into_val(e)] {
+                                let mut raw: Vec<Val> = Vec::new(e);
+                                for p in honest.iter() { raw.push_back(BytesN::from_array(e, p).to_val()); }
+                                raw.push_back(junk);
+                                let mut args: Vec<Val> = Vec::new(e);
+                                args.push_back(raw.to_val());
+                                args.push_back(BytesN::from_array(e, rt).to_val());
+                                args.push_back(BytesN::from_array(e, &lh).to_val());
+                                if form == "verify" { args.push_back(leaf.index.into_val(e)); }
+                                st.hit("fault.proof_padded_with_malformed_element");
+                                if let Ok(Ok(true)) = e.try_invoke_contract::<bool, soroban_sdk::Error>(&id, &Symbol::new(e, form), args) {
+                                    return Err(violation("verify.rejects_corrupted", "malformed_padding", i, format!("{form}: the honest proof of leaf {} padded with a malformed element verified (sha={sha})", leaf.index)));
+                                }
+                            }
+                        }
+                    }
                     let before = w.storage_digest(&[&id]);
                     let got = c.try_claim(&leaf, &pv);
                     let exp = genuine && cur == Some(*tree) && !claimed.contains(&leaf.index);
